@@ -125,6 +125,24 @@ theorem sysRates_spec (c : σ → R) (rs : List (Reaction σ R)) (keys? : Option
     rw [valueAt_addFeed c _ cs (hfc cs rfl), hbase]
     rfl
 
+/-- **Stirred-tank conditions requested through `get_odesys(rsys, cstr=True)`**: the default feed description feeds
+    EVERY substance of the system (whatever kind of object it is — `Species` of any phase included): each substance's rate
+    is the sum of the reaction contributions plus `F·(c_feed s − c s)` with `F = c "feedratio"`, `c_feed s = c ("fc_" ++ s)`. -/
+theorem default_cstr_feeds_every_substance (c : σ → R) (rs : List (Reaction σ R)) (frKey : σ) (feedName : σ → σ)
+    (keys : List σ) (hk : keys.Nodup) (s : σ) (hs : s ∈ keys) :
+    valueAt (sysRates c rs (some keys) (some (defaultCstr frKey feedName keys))) s =
+      (rs.map fun r => contrib c r s).sum + c frKey * (c (feedName s) - c s) := by
+  have hfc : (defaultCstr frKey feedName keys).fc = dictOf (keys.map fun k => (k, feedName k)) :=
+    (dictOf_map_of_nodup keys feedName hk).symm
+  have hnd : (dkeys (defaultCstr frKey feedName keys).fc).Nodup := by rw [hfc]; exact nodup_dkeys_dictOf _
+  have hget : dget? (defaultCstr frKey feedName keys).fc s = some (feedName s) := by
+    rw [hfc, dget?_dictOf_map, if_pos hs]
+  have h := sysRates_spec c rs (some keys) (some (defaultCstr frKey feedName keys))
+    (fun cs hcs => by cases hcs; exact hnd) s (fun ks hks => by cases hks; exact hs)
+  rw [h]
+  simp only [hget]
+  rfl
+
 /-- A substance that was not requested (`substance_keys` given, `s ∉ substance_keys`) gets nothing from the reactions:
     only a feed term if it is fed. -/
 theorem sysRates_outside_keys (c : σ → R) (rs : List (Reaction σ R)) (ks : List σ) (s : σ) (hs : s ∉ ks) :
